@@ -566,9 +566,7 @@ def r145(prog, chk):
         if not w.fi.module.name.startswith("ufo2ft.filters") and not w.fi.module.name == "ufo2ft.util":
             continue
         k = (w.fi.short, A.keytext(w.fi.node, w.node))
-        if k in c07.EXEMPT_WRITES and not w.kind.startswith("escape"):
-            chk.exempt("R14.5", f"{k[0]}|{k[1]}", c07.EXEMPT_WRITES[k])
-            continue
+        # C07's exemptions are about `inplace`; they do not carry over: a filter given a separate glyph set must not touch the font
         inst = f"{k[0]}|{k[1]}"
         if inst in nviol:
             continue
